@@ -62,6 +62,13 @@ def replayer(v):
         vars_ = {'a%d' % i: x for i, x in enumerate(v['args'])}
         out = H.replay(dict(mode='sdk', script='r = %s %s' % (name, ' '.join('${a%d}' % i for i in range(len(v['args'])))), vars=vars_)); v['native'] = out
         return (bool(out.get('panic')), 'native panic' if out.get('panic') else 'native returned control')
+    if k == 'c07_eval':
+        vars_ = {'a%d' % i: x for i, x in enumerate(v['args'])}
+        call = ' '.join('${a%d}' % i for i in range(len(v['args'])))
+        for script in ('r = eval %s' % call, 'alias zz %s\nr = zz' % call, 'if %s\nend' % call):
+            out = H.replay(dict(mode='sdk', script=script, vars=vars_)); v['native'] = out
+            if out.get('panic'): return (True, 'native panic through %r' % script.split()[0:3])
+        return (False, 'native returned control through eval, an alias and an if condition')
     for mod in (c08, c12, c16, c11, c06):
         if k and k.startswith(mod.PID.lower()):
             r = mod.replayer(v)
@@ -69,6 +76,25 @@ def replayer(v):
             nat = v.get('native') or {}
             return (bool(nat.get('panic')) or (r[0] is True and 'panic' in str(r[1])), r[1])
     return (None, 'no replayer for %r' % k)
+
+
+def job_eval_parse(ctx, jr, nargs, cap):
+    """utils::eval::parse - the re-serialiser behind eval, alias commands and command conditions of if / elseif / while / not - on an
+    arbitrary non-empty argument vector: every panic site (indexing the parsed instructions!) and loop bound is an obligation"""
+    jr.bounds = dict(arguments='1..%d' % nargs, argument_chars=cap, alphabet='all Unicode scalar values (line breaks, quotes, backslashes, # included)')
+    e = ctx.engine(unwind=nargs * (cap + 3) + 8); e.panic_only = True
+    t0 = time.time()
+    n = e.fresh_int('nargs', 1, nargs)
+    args = [H.sym_str(e, 'arg%d' % i, cap) for i in range(nargs)]
+    rs, rv = e.run('sdk', 'utils::eval::parse', [V(n, args)], State(True, {}))
+    jr.symex_time = time.time() - t0
+
+    def extract(m, o=None):
+        k = solve.model_int(m, n)
+        return dict(kind='c07_eval', args=[solve.model_str(m, a) for a in args[:k]])
+    res = discharge_known(e, jr, PID, {}, extract)
+    witness(jr, e, 'an argument vector made of line breaks only', zand(rs.g if rs is not None else False, zeq(n, 1), zeq(args[0].len, 1), zeq(args[0].ch[0], 10)), extract, optional=True)
+    H.finish_job(jr, e, res)
 
 
 def main(tier, seed):
@@ -86,6 +112,8 @@ def main(tier, seed):
     chk.job(c16.job_range, 'range', **P)
     chk.job(c11.job_history, 'scope histories', seqs=[('I', 'N', 'Q'), ('J', 'U', 'R'), ('O',), ('H', 'H', 'O', 'O'), ('I', 'J', 'Q', 'R'), ('J', 'A', 'R', 'D')], **P)
     chk.job(c06.job_slice, 'conditions', n=6 if tier == 'quick' else 8, atom_cap=3, D=3, **P)
+    if tier == 'quick': chk.job(job_eval_parse, 'eval re-serialiser', nargs=1, cap=4)
+    else: chk.job(job_eval_parse, 'eval re-serialiser', nargs=2, cap=2)
     chk.bounds = dict(generic_commands=len(GENERIC) + len(FLOW_TYPES), argument_chars=cap, parser_line=8 if tier == 'quick' else 12)
     chk.assumptions = ['scope: every panic site (MIR assert terminators, unwrap/expect, slicing, diverging calls) and every loop/recursion bound of the functions encoded here is a proof obligation; '
                        'the oracles of the re-used harnesses are not asserted here (they belong to their own properties)',
